@@ -25,6 +25,10 @@ class KeepArray(np.ndarray):
             return np.asarray(self)
         return self
 
+    def __array_wrap__(self, out, context=None, return_scalar=False):
+        out = np.asarray(out)
+        return out[()] if out.ndim == 0 else out
+
 
 def keep(a):
     return np.asarray(a, dtype=object).view(KeepArray)
